@@ -113,14 +113,23 @@ def main():
         # a behaviour-preserving variant: no confirmation step, every check must stay silent
         patch_dir, vid = sys.argv[2], sys.argv[3]
         checks = [f"C{n:02d}" for n in range(1, 21)]
+        if "--checks" in sys.argv:
+            checks = sys.argv[sys.argv.index("--checks") + 1].split(",")
         if not os.path.exists(f"{SNAP}/check"):
             prepare()
         rc, out = run(f"git -C {SRC} checkout -- . && git -C {SRC} apply {patch_dir}/patch.diff && cd {SRC} && cargo test --offline 2>&1 | grep 'test result' | head -1", env={"CARGO_TARGET_DIR": TARGET})
         suite = out.strip()
         det = detect(patch_dir, checks)
-        alarms = {c: r for c, r in det.items() if isinstance(r, dict) and r.get("exit") != 0}
         dest = f"{VERIF}/benign/{vid}"
         os.makedirs(dest, exist_ok=True)
+        if len(checks) < 20 and os.path.exists(f"{dest}/meta.json"):
+            # a partial re-run: keep the records of the checks not run this time
+            try:
+                old = json.load(open(f"{dest}/meta.json")).get("detection", {})
+                merged = dict(old); merged.update(det); det = merged
+            except Exception:
+                pass
+        alarms = {c: r for c, r in det.items() if isinstance(r, dict) and r.get("exit") != 0}
         if os.path.abspath(patch_dir) != os.path.abspath(dest):
             shutil.copy(f"{patch_dir}/patch.diff", f"{dest}/patch.diff")
             if os.path.exists(f"{patch_dir}/note.md"):
